@@ -470,7 +470,8 @@ class LogCounter(object):
 class World(object):
     """one server (real loop) + any number of real clients + a simulated network"""
 
-    def __init__(self, rng, dt=1 / 60, jitter=0.0, ctxt_setup=None, handler=None, root_key=None, blocklist=None):
+    def __init__(self, rng, dt=1 / 60, jitter=0.0, ctxt_setup=None, handler=None, root_key=None, blocklist=None,
+                 blocklist_after_construction=False):
         from mpgameserver import ServerContext, EllipticCurvePrivateKey
         from mpgameserver.twisted import TwistedServer
         self.rng = rng
@@ -494,11 +495,14 @@ class World(object):
         self.handler = handler or MonHandler(self)
         self.ctxt = ServerContext(self.handler, self.root_key)
         self.ctxt.setInterval(dt)
-        if blocklist is not None:
+        if blocklist is not None and not blocklist_after_construction:
             self.ctxt.setBlockList(blocklist)
         if ctxt_setup:
             ctxt_setup(self.ctxt)
         self.server = TwistedServer(self.ctxt, SERVER_ADDR, install_signals=False)
+        if blocklist is not None and blocklist_after_construction:
+            # "the configuration should be set prior to calling the run method": after construction is still prior to run
+            self.ctxt.setBlockList(blocklist)
         self.server.transport = Transport(self)
         self.thread = self.server.thread
         self.send_errors = []
@@ -632,10 +636,10 @@ class World(object):
             h(addr, datagram, origin)
 
     # ----- stepping
-    def step(self, n=1, actions=None):
+    def step(self, n=1, actions=None, dt_override=None):
         for _ in range(n):
-            dt = self.dt
-            if self.jitter:
+            dt = self.dt if dt_override is None else dt_override
+            if self.jitter and dt_override is None:
                 dt *= 1.0 + self.rng.uniform(-self.jitter, self.jitter)
             self.clock.now += dt
             self.ticks += 1
@@ -647,6 +651,20 @@ class World(object):
                     c.tick()
             for h in self.tick_hooks:
                 h(self)
+            if not self._dead:
+                self._release_server()
+        return self
+
+    def spin(self, n, actions=None):
+        """n rounds of clients + server loop WITHOUT advancing the clock (an application that calls update() far more
+        often than the send interval; time stands still between the calls - a non-decreasing clock)"""
+        for _ in range(n):
+            self.net.deliver_due()
+            if actions:
+                actions(self)
+            for c in self.clients:
+                for _k in range(c.updates_per_step):
+                    c.tick()
             if not self._dead:
                 self._release_server()
         return self
